@@ -228,9 +228,85 @@ def _short(op):
     return o
 
 
+def _run_linear(init, ops_seq, pol, only):
+    """perform ops_seq on ONE real wrapper built in `init` (nothing is rebuilt between the steps, so state the wrapper hides in
+    its closure evolves as in a real session); the clauses are evaluated on the LAST step -> (violations, evaluations)"""
+    spec0 = dict(init)
+    spec0['clause'] = ''
+    w, ctx = WR.build(spec0)
+    for op in ops_seq[:-1]:
+        sp = dict(spec0)
+        sp.update(op)
+        WR.perform(sp, w, ctx)
+    spec = dict(spec0)
+    spec.update(ops_seq[-1])
+    spec['unhashable'] = []
+    del ctx['calls'][:]
+    pre = WR.Sigma(w, ctx['roles'])
+    outcome, value = WR.perform(spec, w, ctx)
+    post = WR.Sigma(w, ctx['roles'])
+    viol, n = [], 0
+    names = list(clauses_for(pol, spec['op'])) + [('INV', 'inv.' + i) for i in INV_ALL + INV[pol]]
+    for (prop, cl) in names:
+        if only is not None and cl not in only and prop not in only:
+            continue
+        try:
+            ok = WR.eval_clause(cl, spec, pre, post, outcome, value, ctx)
+        except Exception:      # noqa
+            ok = None
+        n += 1
+        if ok is False:
+            viol.append({'property': prop, 'clause': cl, 'outcome': outcome, 'value': repr(value)[:200],
+                         'pre': WR.snap_repr(pre), 'post': WR.snap_repr(post)})
+    return viol, n
+
+
+def linear_search(module, cls, only, depth=7, budget_s=40.0, universe=4):
+    """all call sequences over `universe` keys up to `depth` (and sequences with load/clear/dump up to depth 5), each run on a
+    single wrapper from the freshly decorated function: finds failures that depend on state hidden in the closure, which the
+    state-rebuilding explorer cannot see.  -> a history-style violation record (with 'linear': True) or None"""
+    import itertools
+    pol = cls.split('_')[0]
+    t0 = time.time()
+    call_ops = [{'op': 'call', 'call': {'key_elem': e, 'keygen_raises': False, 'user_raises': False}} for e in range(universe)]
+    extra = [{'op': 'load', 'keys': []}, {'op': 'clear', 'clear_mode': 'default'}, {'op': 'dump', 'keys': []}]
+    maxsizes, purges = ((1,), (False,)) if pol in ('no', 'inf') else ((2, 1), (False, True))
+    for (opset, maxlen) in ((call_ops, depth), (call_ops[:3] + extra, min(depth, 5))):
+        for M in maxsizes:
+            for purge in purges:
+                for arch in ('dict', 'none'):
+                    if purge and arch == 'none':
+                        continue
+                    init = {'module': module, 'cls': cls, 'maxsize': M, 'purge': purge, 'universe': universe, 'arch0': arch,
+                            'mem': {}, 'A': None if arch == 'none' else {}, 'S': None, 'stats': [0, 0, 0]}
+                    if pol in ('lru', 'mru'):
+                        init['queue'] = []
+                    if pol in ('lru', 'lfu'):
+                        init['counter'] = {}
+                    for n in range(1, maxlen + 1):
+                        for seq in itertools.product(range(len(opset)), repeat=n):
+                            if time.time() - t0 > budget_s:
+                                return None
+                            ops_seq = [opset[i] for i in seq]
+                            random.seed(4242)
+                            try:
+                                viol, _ = _run_linear(init, ops_seq, pol, only)
+                            except Exception:      # noqa
+                                continue
+                            if viol:
+                                v = viol[0]
+                                v.update({'history': ops_seq, 'state': init, 'linear': True, 'config': {'maxsize': M, 'purge': purge, 'archive': arch}})
+                                return v
+    return None
+
+
 def replay_history(v):
     """re-run a violation record (state + last operation) on the real code -> still violated?"""
     pol = v['state']['cls'].split('_')[0]
+    if v.get('linear'):
+        random.seed(4242)
+        viol, _ = _run_linear(v['state'], v['history'], pol, {v['clause']})
+        return any(x['clause'] == v['clause'] for x in viol)
     nxt, viol, n = step(v['state'], v['history'][-1], pol, only={v['clause']})
     return any(x['clause'] == v['clause'] for x in viol)
 
